@@ -18,6 +18,8 @@ def gen_sample_case(r, emax=6, Ds=(1, 2, 3, 4, 5, 6), massless_share=0.3, stabil
     sig, tree, chords = G.fundamental_signature(pairs)
     M = G.random_unimodular(r, L)
     sig = G.change_basis(sig, M)
+    if L >= 3 and r.chance(0.4):
+        sig = G.sparse_basis(r, sig)          # cycle bases with edge-disjoint cycles: zero entries of L with fill-in in its factor
     flips = [r.chance(0.3) for _ in range(E)]
     sig = [[-x for x in row] if fl else row for row, fl in zip(sig, flips)]
     D = g["D"]
@@ -25,11 +27,19 @@ def gen_sample_case(r, emax=6, Ds=(1, 2, 3, 4, 5, 6), massless_share=0.3, stabil
     point = [r.open_unit() for _ in range(dim)]
     ed = []
     zero_shifts = r.chance(zero_shift_share)
-    for (a, b, m, w) in g["edges"]:
+    # a third kind of kinematics: momentum flows only through edges that belong to a LATER loop of the basis and to no earlier
+    # one, so the u vectors of the earlier loops vanish exactly while a later one does not
+    only = None
+    if not zero_shifts and L >= 2 and r.chance(0.12):
+        lstar = r.range(1, L - 1)
+        own = [e for e in range(E) if sig[e][lstar] != 0 and all(sig[e][l] == 0 for l in range(lstar))]
+        if own:
+            only = set(own)
+    for e_idx, (a, b, m, w) in enumerate(g["edges"]):
         mass = None
         if m and (all_masses or not r.chance(0.1)):
             mass = 0.1 + 2.0 * r.unit()
-        sh = [0.0] * D if zero_shifts else [round((r.unit() - 0.5) * 4, 3) for _ in range(D)]
+        sh = [0.0] * D if (zero_shifts or (only is not None and e_idx not in only)) else [round((r.unit() - 0.5) * 4, 3) for _ in range(D)]
         ed.append(dict(mass=(f2b(mass) if mass is not None else None), shift=[f2b(x) for x in sh]))
     c = G.to_case(g)
     c["oriented_pairs"] = [[b, a] if fl else [a, b] for (a, b), fl in zip(pairs, flips)]
